@@ -239,7 +239,7 @@ sequence (a) lists every operator once, (b) runs each operator only after all of
 dependencies — inputs and subgraph captures — are available from the supplied inputs,
 constants, graph captures (if `captures_available`) and outputs of earlier entries,
 (c) makes every requested output available, and (d) contains only operators needed by a
-requested output.  With `allow_missing_inputs`, "available" also admits values that no
+requested output.  With `allow_missing_inputs`, "available" also accepts values that no
 operator produces. -/
 theorem c03_plan_ok {g : Graph} {ins outs plan : List Nat} {opts : PlanOptions}
     (hargs : ArgsOK g ins outs) (h : createPlan g ins outs opts = .ok plan) :
